@@ -14,6 +14,7 @@ pub mod oracle;
 pub mod props;
 pub mod report;
 pub mod script;
+pub mod fuzz;
 
 pub fn config_name() -> &'static str {
     match (cfg!(feature = "explanations"), cfg!(feature = "checks")) {
